@@ -360,7 +360,7 @@ func c52(sum *lib.Summary) {
 	}
 	nprog := 480
 	if *tier == "thorough" {
-		nprog = 3000
+		nprog = 2400
 	}
 	sum.Rule = "MiniCadence programs (expressions whose leaves are logging probe calls nested in every operator and statement form of the " +
 		"fragment), each run as a script by the interpreter and by the VM; result/error class and ProgramLog sequence of both engines are compared " +
